@@ -42,6 +42,9 @@ CHECKS = {
  'C08': dict(level='exploration', technique='property-based testing with a virtual clock: generated policy parameters (literal / YAQL / Jinja / task-defaults / invalid evaluated values), per-attempt outcomes and schedules in which clock advances race results; reference model of the documented policy semantics evaluated over the observed trace',
    text='One policy-decorated task per case: retry (count, delay, break-on, continue-on), wait-before, wait-after, timeout, fail-on, pause-before in every parameter form, with drawn per-attempt outcomes (ok / error / never) under schedules where advancing the virtual clock is a schedulable choice. Checked over the trace with virtual timestamps: at most count+1 attempts; exact attempt count and final state from a reference model of stop-at-first-success / continue-on / break-on / fail-on; every DELAYED period lasts at least the delay of the policy that caused it; the follow-up task for the final state exists exactly once and the other does not; a timeout timer firing after completion changes no row; pause-before pauses the workflow and nothing starts before resume; an invalid evaluated value fails the task instead of hanging; no undeclared exception.',
    design='3 C08', note=ASSUME + '; whole-second virtual clock; exact-count and delay oracles are applied only to cases without a timeout (timeout/retry interplay is checked for termination, bounds and timer no-ops)'),
+ 'C09': dict(level='exploration', technique='property-based testing: generated nesting shapes (workbook-relative / full / expression calls, name families sharing characters, with-items callers, namespace, env, extra input, in-process or via bus) with generated leaf outcomes, operator cancels and schedules; pairwise parent-task/child invariants at quiescence',
+   text='For every generated nesting case the rows at quiescence must satisfy, for each parent task / child execution pair: task state equals child state (SUCCESS/ERROR/CANCELLED; aggregated for with-items), the task result equals the child output, every descendant records the root execution id and the root namespace, undeclared input keys appear in the child params, the root environment is what expressions in every leaf see (captured from the evaluated action input), a standalone workflow never shadows a workbook member for a short-name call, the parent continues exactly once (successor / error handler created once) and each finished child is reported exactly once on the bus.',
+   design='3 C09', note=ASSUME),
 }
 NA = []
 def main():
